@@ -75,12 +75,20 @@ func readTL1Boxed(o Object, in []byte) (rest []byte, err error) {
 }
 
 func tl2(o Object, reuse *basictl.TL2WriteContext) (b []byte, err error) {
-	err = call("WriteTL2", func() { b = o.WriteTL2(nil, reuse) })
+	t, ok := o.(TL2Object)
+	if !ok {
+		return nil, fmt.Errorf("%s was generated without TL2", o.TLName())
+	}
+	err = call("WriteTL2", func() { b = t.WriteTL2(nil, reuse) })
 	return
 }
 
 func readTL2(o Object, in []byte) (rest []byte, err error) {
-	if e := call("ReadTL2", func() { rest, err = o.ReadTL2(in, &basictl.TL2ReadContext{}) }); e != nil {
+	t, ok := o.(TL2Object)
+	if !ok {
+		return nil, fmt.Errorf("%s was generated without TL2", o.TLName())
+	}
+	if e := call("ReadTL2", func() { rest, err = t.ReadTL2(in, &basictl.TL2ReadContext{}) }); e != nil {
 		return nil, e
 	}
 	return
